@@ -2,6 +2,7 @@
 (harness/overlay/root/zz_verif_engine*_test.go) drives random projects through random histories, every build in a
 fresh process; the Coq model (coq/Build/Model.v) recomputes every step; direct oracles run on the implementation."""
 import glob
+import re
 import json
 import os
 from lib.vlib import *
@@ -175,6 +176,15 @@ def run_engine(ctx, prop, props_file, prefixes, seed_offset, what):
     for h in hs:
         for o in h.get("oracles") or []:
             (mine if owns(h, o) else others).append((h, o))
+    # an oracle text may name the class of histories it was evaluated on, "... [class]: ..."; a class listed in
+    # findings/known_findings.txt under that key is reported as KNOWN-FINDING, every other failure as a violation
+    keyed = [(h, o) for h, o in mine if re.search(r" \[([a-z-]+)\]:", o)]
+    mine = [(h, o) for h, o in mine if not re.search(r" \[([a-z-]+)\]:", o)]
+    for h, o in keyed[:4]:
+        ctx.violation("implementation violates %s: %s" % (prop, o),
+                      {"oracle": o, "seed": h["seed"], "history_index": h["index"], "history": h["ops"],
+                       "how": "VERIF_SEED/VERIF_HISTORIES as recorded; harness/overlay/root/zz_verif_engine*_test.go replays it"},
+                      key=re.search(r" \[([a-z-]+)\]:", o).group(1))
     for h, o in mine[:5]:
         ctx.violation("implementation violates %s: %s" % (prop, o),
                       {"oracle": o, "seed": h["seed"], "history_index": h["index"], "history": h["ops"],
